@@ -79,6 +79,10 @@ func run(pass *analysis.Pass) (any, error) {
 			prev = r
 		}
 
+		// The scanner removes carriage returns from the values of raw string literals. When it did, offsets in the
+		// value no longer correspond to offsets in the file and we cannot tell which bytes to edit.
+		canFix := !lit.ValueEnd.IsValid() || int(lit.ValueEnd-lit.ValuePos) == len(lit.Value)
+
 		switch len(invalids) {
 		case 0:
 			return
@@ -112,7 +116,11 @@ func run(pass *analysis.Pass) (any, error) {
 					End: lit.Pos() + token.Pos(r.off) + token.Pos(utf8.RuneLen(r.r)),
 				}},
 			}
-			report.Report(pass, lit, msg, report.Fixes(edit, delete))
+			if canFix {
+				report.Report(pass, lit, msg, report.Fixes(edit, delete))
+			} else {
+				report.Report(pass, lit, msg)
+			}
 		default:
 			var kind string
 			if hasFormat && hasControl {
@@ -149,7 +157,11 @@ func run(pass *analysis.Pass) (any, error) {
 				Message:   fmt.Sprintf("delete all %s characters", kind),
 				TextEdits: deletions,
 			}
-			report.Report(pass, lit, msg, report.Fixes(edit, delete))
+			if canFix {
+				report.Report(pass, lit, msg, report.Fixes(edit, delete))
+			} else {
+				report.Report(pass, lit, msg)
+			}
 		}
 	}
 	code.Preorder(pass, fn, (*ast.BasicLit)(nil))
